@@ -164,6 +164,10 @@ func (g *fgen) callInner(in ssa.CallInstruction, st *state) []val {
 		}
 	}()
 	if callee == nil {
+		if pf, ok := g.pureFieldCall(c); ok {
+			g.assum["calls through "+pf+" are pure (purefield declaration): deterministic in the function value and arguments, no heap effect"] = true
+			return []val{g.dynApp(c.Signature(), g.get(c.Value), args)}
+		}
 		// dynamic call through a function value
 		// every real heap cell may change; the ghost ledgers (locks held, sink/store
 		// ledgers) are assumed untouched by the callback - listed as an assumption
@@ -177,7 +181,7 @@ func (g *fgen) callInner(in ssa.CallInstruction, st *state) []val {
 		r := args[0]
 		recv = &r
 		args = args[1:]
-		if _, ok := r.typ.Underlying().(*types.Pointer); ok {
+		if _, ok := r.typ.Underlying().(*types.Pointer); ok && !(fc != nil && fc.nilRecvOK) {
 			g.oblige("nilrecv", g.siteLabel(pos, "call "+callee.Name()), fmt.Sprintf("(not (= %s 0))", r.t), pos)
 		}
 	}
@@ -704,4 +708,60 @@ func (g *fgen) applyModIf(fc *funcContract, env *cenv, pre, st *state, nHavocs i
 	}
 	st.epoch = g.newEpoch([]epochPred{{guard: ct, st: pre}})
 	g.epochs[st.epoch].except = func(k string) bool { return except[k] }
+}
+
+// pureFieldCall: the callee value is loaded from a struct field declared `purefield`.
+func (g *fgen) pureFieldCall(c *ssa.CallCommon) (string, bool) {
+	if c.Signature().Results().Len() != 1 {
+		return "", false
+	}
+	u, ok := c.Value.(*ssa.UnOp)
+	if !ok || u.Op != token.MUL {
+		return "", false
+	}
+	fa, ok := u.X.(*ssa.FieldAddr)
+	if !ok {
+		return "", false
+	}
+	pt, ok := fa.X.Type().Underlying().(*types.Pointer)
+	if !ok {
+		return "", false
+	}
+	n, ok := pt.Elem().(*types.Named)
+	if !ok || n.Obj().Pkg() == nil {
+		return "", false
+	}
+	st := n.Underlying().(*types.Struct)
+	key := n.Obj().Pkg().Path() + "." + n.Obj().Name() + "." + st.Field(fa.Field).Name()
+	return n.Obj().Name() + "." + st.Field(fa.Field).Name(), g.w.cs.pureFields[key]
+}
+
+// dynApp: the result of a pure call through function value f, as an uninterpreted
+// function (one per signature) of f and the arguments.
+func (g *fgen) dynApp(sig *types.Signature, f val, args []val) val {
+	rt := sig.Results().At(0).Type()
+	name := "dynf_" + mangle(types.TypeString(sig, func(p *types.Package) string { return p.Name() }))
+	if !g.declared[name] {
+		g.declared[name] = true
+		ss := []string{"Int"}
+		for i := 0; i < sig.Params().Len(); i++ {
+			ss = append(ss, g.sortOf(sig.Params().At(i).Type()))
+		}
+		g.emit(fmt.Sprintf("(declare-fun %s (%s) %s)", name, strings.Join(ss, " "), g.sortOf(rt)))
+		// the result is a value of its Go type
+		var bs, as []string
+		for i, srt := range ss {
+			bs = append(bs, fmt.Sprintf("(d!%d %s)", i, srt))
+			as = append(as, fmt.Sprintf("d!%d", i))
+		}
+		app := fmt.Sprintf("(%s %s)", name, strings.Join(as, " "))
+		if w := g.wf(app, rt, "", 0); w != "true" {
+			g.emit(fmt.Sprintf("(assert (forall (%s) (! %s :pattern (%s))))", strings.Join(bs, " "), w, app))
+		}
+	}
+	ts := []string{f.t}
+	for _, a := range args {
+		ts = append(ts, a.t)
+	}
+	return val{fmt.Sprintf("(%s %s)", name, strings.Join(ts, " ")), rt, g.sortOf(rt)}
 }
